@@ -208,7 +208,16 @@ macro_rules! fixed_cmp_float {
                     Widest::Unsigned(bits) => bits as <Self as Fixed>::Bits,
                     Widest::Negative(bits) => bits as <Self as Fixed>::Bits,
                 };
-                conv.dir == Ordering::Equal && !conv.overflow && rhs_bits == self.to_bits()
+                // the converted bits must keep the sign of rhs, otherwise rhs is
+                // outside the range of Self and cannot be equal
+                let rhs_is_neg = match conv.bits {
+                    Widest::Unsigned(_) => false,
+                    Widest::Negative(_) => true,
+                };
+                conv.dir == Ordering::Equal
+                    && !conv.overflow
+                    && rhs_bits.is_negative() == rhs_is_neg
+                    && rhs_bits == self.to_bits()
             }
         }
 
@@ -250,6 +259,10 @@ macro_rules! fixed_cmp_float {
                     Widest::Unsigned(bits) => bits as <Self as Fixed>::Bits,
                     Widest::Negative(bits) => bits as <Self as Fixed>::Bits,
                 };
+                if rhs_bits.is_negative() && !rhs_is_neg {
+                    // rhs is above the maximum of signed Self
+                    return Some(Ordering::Less);
+                }
                 Some(self.to_bits().cmp(&rhs_bits).then(conv.dir))
             }
 
@@ -274,6 +287,10 @@ macro_rules! fixed_cmp_float {
                     Widest::Unsigned(bits) => bits as <Self as Fixed>::Bits,
                     Widest::Negative(bits) => bits as <Self as Fixed>::Bits,
                 };
+                if rhs_bits.is_negative() && !rhs_is_neg {
+                    // rhs is above the maximum of signed Self
+                    return true;
+                }
                 let lhs_bits = self.to_bits();
                 lhs_bits < rhs_bits || (lhs_bits == rhs_bits && conv.dir == Ordering::Less)
             }
@@ -321,6 +338,10 @@ macro_rules! fixed_cmp_float {
                     Widest::Unsigned(bits) => bits as <$Fix<Frac> as Fixed>::Bits,
                     Widest::Negative(bits) => bits as <$Fix<Frac> as Fixed>::Bits,
                 };
+                if lhs_bits.is_negative() && !lhs_is_neg {
+                    // self is above the maximum of the signed fixed-point type
+                    return false;
+                }
                 let rhs_bits = rhs.to_bits();
                 lhs_bits < rhs_bits || (lhs_bits == rhs_bits && conv.dir == Ordering::Greater)
             }
